@@ -40,9 +40,10 @@ Qed.
 (* ------------------------------------------------------------------ what a thread knows under a write lock *)
 Definition pc_gi (p : pcT) : option (gi * bool) :=
   match p with
-  | PCan1 g | PCan2 g _ | PAl99 g | PAl0 g | PAl1 g _ | PAl2 g _ _ | PAl3 g _ | PFull g | PFailFull g => Some (g, false)
+  | PCan1 g | PCan2 g _ | PAl99 g | PAl0 g | PAl1 g _ | PAl2 g _ _ | PAl3 g _ | PFull g | PFailFull g | PInitFail g => Some (g, false)
   | PInit g => Some (g, true)
-  | PRel0 _ (KCan g) | PRel1 _ _ (KCan g) | PRel0 _ (KFailFull g) | PRel1 _ _ (KFailFull g) => Some (g, false)
+  | PRel0 _ (KCan g) | PRel1 _ _ (KCan g) | PRel0 _ (KFailFull g) | PRel1 _ _ (KFailFull g)
+  | PRel0 _ (KInitFail g) | PRel1 _ _ (KInitFail g) => Some (g, false)
   | PRel0 _ (KInit g) | PRel1 _ _ (KInit g) => Some (g, true)
   | _ => None
   end.
@@ -264,7 +265,7 @@ Proof.
   apply (proj1 Hwf) in E. destruct E as (e & He & _). unfold hit_entry. rewrite He. discriminate.
 Qed.
 
-Ltac simp_st := unfold inv1; cbn [shs thr upd upd_th upd_sh mark_race set_glast set_gleak set_alock].
+Ltac simp_st := unfold inv1; cbn [shs thr upd upd_th upd_sh set_glast set_alock].
 Ltac pc_triv := apply tinv_trivial; reflexivity.
 Ltac pc_xfer Ht :=
   solve [ eapply tinv_transfer; [exact Ht | |];
@@ -486,7 +487,7 @@ Proof.
   all: brk H.
   all: try (inversion H; subst s'; clear H).
   all: try match goal with |- context [match ents ?x with _ => _ end] => destruct (ents x) eqn:? end.
-  all: cbn [shs upd upd_th upd_sh mark_race set_glast set_gleak set_alock]; try reflexivity.
+  all: cbn [shs upd upd_th upd_sh set_glast set_alock]; try reflexivity.
   all: try match goal with
        | Hn : nth_error (shs _) ?i = Some ?sh |- _ =>
            let Hwf := fresh "Hwf" in let Hkeys := fresh "Hkeys" in
